@@ -1,1 +1,132 @@
-fn main(){}
+use tacheck::fw::*;
+use tacheck::props;
+
+fn usage() -> ! {
+    eprintln!("usage: tacheck <ID> [--tier quick|thorough] [--replay <file>] [--strict] [--no-regress]");
+    std::process::exit(2);
+}
+
+type RunFn = fn(&mut Global);
+
+fn table() -> Vec<(&'static str, RunFn)> {
+    vec![
+        ("C01", props::c01::run as RunFn),
+    ]
+}
+
+fn main() {
+    let args: Vec<String> = std::env::args().skip(1).collect();
+    if args.is_empty() {
+        usage();
+    }
+    let id_arg = args[0].clone();
+    let mut tier = match std::env::var("VERIF_TIER").ok().as_deref() {
+        Some("thorough") => Tier::Thorough,
+        _ => Tier::Quick,
+    };
+    let mut replay: Option<String> = None;
+    let mut strict = false;
+    let mut regress = true;
+    let mut i = 1;
+    while i < args.len() {
+        match args[i].as_str() {
+            "--tier" => {
+                i += 1;
+                tier = match args.get(i).map(|s| s.as_str()) {
+                    Some("quick") => Tier::Quick,
+                    Some("thorough") => Tier::Thorough,
+                    _ => usage(),
+                };
+            }
+            "--replay" => {
+                i += 1;
+                replay = Some(args.get(i).cloned().unwrap_or_else(|| usage()));
+            }
+            "--strict" => strict = true,
+            "--no-regress" => regress = false,
+            _ => usage(),
+        }
+        i += 1;
+    }
+    let seed = match std::env::var("VERIF_SEED").ok().and_then(|s| s.trim().parse::<i128>().ok()) {
+        Some(0) | None => 1u64,
+        Some(v) => (v as i64) as u64,
+    };
+    let seed = if seed == 0 { 1 } else { seed };
+    let verif_dir = std::env::var("VERIF_DIR").unwrap_or_else(|_| "/verif".to_string());
+    let (id, run) = match table().into_iter().find(|(n, _)| *n == id_arg) {
+        Some(x) => x,
+        None => {
+            eprintln!("unknown property {}", id_arg);
+            std::process::exit(2);
+        }
+    };
+    install_panic_hook();
+    // watchdog: a hang is inconclusive (exit 2), never a violation
+    let limit = std::env::var("VERIF_WATCHDOG_S").ok().and_then(|s| s.parse::<u64>().ok()).unwrap_or(match tier {
+        Tier::Quick => 1500,
+        Tier::Thorough => 6 * 3600,
+    });
+    std::thread::spawn(move || {
+        std::thread::sleep(std::time::Duration::from_secs(limit));
+        eprintln!("INCONCLUSIVE watchdog: run exceeded {} s", limit);
+        std::process::exit(2);
+    });
+
+    if let Some(path) = replay {
+        std::process::exit(replay_file(id, run, tier, seed, &verif_dir, &path, true));
+    }
+    // regression tier: replay every saved case first
+    if regress {
+        let g0 = Global::new(id, tier, seed, Mode::Run, verif_dir.clone(), strict);
+        let files = g0.regression_files();
+        drop(g0);
+        let mut bad = 0;
+        for f in &files {
+            let c = replay_file(id, run, tier, seed, &verif_dir, f, false);
+            if c == 1 {
+                bad += 1;
+            } else if c != 0 {
+                std::process::exit(c);
+            }
+        }
+        if !files.is_empty() {
+            println!("{}: replayed {} saved case(s), {} failing", id, files.len(), bad);
+        }
+        if bad > 0 {
+            // still write evidence via a normal (short-circuited) run? No: a returning regression is a violation.
+            std::process::exit(1);
+        }
+    }
+    let mut g = Global::new(id, tier, seed, Mode::Run, verif_dir, strict);
+    run(&mut g);
+    std::process::exit(g.finish());
+}
+
+fn replay_file(id: &'static str, run: RunFn, tier: Tier, seed: u64, verif_dir: &str, path: &str, strict: bool) -> i32 {
+    let text = match std::fs::read_to_string(path) {
+        Ok(t) => t,
+        Err(e) => {
+            eprintln!("INCONCLUSIVE cannot read replay {}: {}", path, e);
+            return 2;
+        }
+    };
+    let v: serde_json::Value = match serde_json::from_str(&text) {
+        Ok(v) => v,
+        Err(e) => {
+            eprintln!("INCONCLUSIVE bad replay file {}: {}", path, e);
+            return 2;
+        }
+    };
+    if v["property"].as_str() != Some(id) {
+        eprintln!("INCONCLUSIVE replay file {} is for property {:?}", path, v["property"]);
+        return 2;
+    }
+    let stage = v["stage"].as_str().unwrap_or("").to_string();
+    std::env::set_var("TACHECK_REPLAY_PATH", path);
+    // --replay given explicitly: strict (known findings are reported as violations too, so a
+    // replay file of a known finding demonstrates the defect); regression tier: non-strict.
+    let mut g = Global::new(id, tier, seed, Mode::Replay { stage, case: v["case"].clone() }, verif_dir.to_string(), strict);
+    run(&mut g);
+    g.finish()
+}
